@@ -323,6 +323,18 @@ seg = st.tuples(st.integers(0, 10 ** 6), st.one_of(st.integers(1, 60), st.intege
 
 @st.composite
 def cases(draw):
+    c = draw(base_cases())
+    # steer a sixth of the scenarios into the range-cap ladder: many separate missing ranges against a server that accepts only
+    # one or two ranges per request and answers anything bigger with 200 + the whole file (Apache MaxRanges style)
+    if draw(st.integers(0, 5)) == 0 and not c["kill_after"]:
+        while len(c["segs"]) < 7:
+            c["segs"].append([draw(st.integers(0, 10 ** 6)), draw(st.integers(20, 400)), draw(st.integers(0, 1))])
+        c["target"] = 2; c["damage"] = draw(st.sampled_from([0b0101010101010101, 0b1010101010101010, 0b0110110110110110, 0b1001001001001001])); c["max_ranges"] = draw(st.sampled_from([1, 2, 2])); c["no_ranges"] = False
+    return c
+
+
+@st.composite
+def base_cases(draw):
     return {"segs": [list(x) for x in draw(st.lists(seg, min_size=1, max_size=14))], "edits": [[a, b, list(c)] for a, b, c in draw(st.lists(st.tuples(st.integers(0, 2), st.integers(0, 20), seg), max_size=4))],
             "have_a": draw(st.booleans()), "target": draw(st.integers(0, 4)), "damage": draw(st.integers(0, 2 ** 15)), "comp": draw(st.sampled_from([None, "none", "zstd"])),
             "max_ranges": draw(st.sampled_from([1, 2, 7, 127, 10 ** 6, 10 ** 6])), "boundary": draw(st.one_of(st.just("00000000000000000001"), st.text(alphabet="0123456789abcdefXYZ", min_size=1, max_size=40), st.sampled_from(["a+b", "x(1)y", "gc0p4Jq0M2Yt08jU534c0p", "=_?:'a"]))),
